@@ -158,6 +158,77 @@ class Gen:
                 ops += self.adds(self.rand_items(rng.choice([0, 1]), "wide"))
                 prev = self.add_res(kind, k, ops, "chain", top=(lvl == length - 1))
 
+    def followups(self, K, T, f, style):
+        """f further offers relative to retained priorities 100, 200, .., T*100 (true minimum 100)"""
+        rng = self.rng
+        out = []
+        for i in range(f):
+            st = style if style != "mixed" else rng.choice(["between", "above", "below", "lowbetween", "equal"])
+            if st == "lowbetween":            # just above the true minimum
+                p = 150 + i
+            elif st == "between":
+                p = rng.randint(1, max(T, 1)) * 100 + 50 + i
+            elif st == "above":
+                p = (T + 5) * 100 + i
+            elif st == "equal":
+                p = rng.randint(1, max(T, 1)) * 100
+            else:
+                p = 10 + i
+            out.append((p, 0))
+        return out
+
+    def fills(self):
+        """A merge / merge-failed / carried-over split that brings a reservoir of capacity K to exactly
+        K-1, K or K+1 events (every division a + b), with contents that are not heap-ordered, and then
+        the period CONTINUES: 1..K+2 further offers above / below / between what is retained, and
+        merges after merges."""
+        rng = self.rng
+        kmax = 6 if self.tier == "quick" else 8
+        for K in range(1, kmax + 1):
+            for T in (K - 1, K, K + 1):
+                for a in range(0, K + 1):
+                    b = T - a
+                    if b < 0:
+                        continue
+                    for opname in ("merge", "mergefailed"):
+                        for variant in (0, 1):
+                            kind = self.kind()
+                            vals = [(T - i) * 100 for i in range(T)]          # descending: [0] is the maximum
+                            if variant == 1 and T > 2:
+                                vals = vals[1:] + vals[:1]                    # rotated: neither sorted way
+                            cap_o = b + 1 if variant == 0 else b              # arrival order / heapified
+                            other = self.add_res(kind, cap_o, self.adds([(v, 0) for v in vals[a:]]), "fill",
+                                                 top=False)
+                            ops = self.adds([(v, 0) for v in vals[:a]])
+                            ops.append({"op": opname, "p": 0, "t": 0, "r": other})
+                            if variant == 0:
+                                ops += self.adds(self.followups(K, T, 1, "lowbetween" if T >= 2 else "above"))
+                                ops += self.adds(self.followups(K, T, rng.randint(0, 2), "mixed"))
+                            else:
+                                ops += self.adds(self.followups(K, T, rng.randint(1, K + 2), "mixed"))
+                                # merges after merges, then more offers
+                                o2 = self.add_res(kind, 2, self.adds(self.followups(K, T, rng.randint(0, 2), "mixed")),
+                                                  "fill", top=False)
+                                ops.append({"op": rng.choice(["merge", "mergefailed"]), "p": 0, "t": 0, "r": o2})
+                                ops += self.adds(self.followups(K, T, rng.randint(1, 2), "mixed"))
+                            self.add_res(kind, K, ops, "fill", split=(variant == 1 and rng.random() < 0.3))
+        # both halves of a split reservoir carried over into the next period, which then continues
+        for K in range(1, kmax + 1):
+            for T in (K - 1, K, K + 1):
+                for a in sorted(set([0, 1, K // 2])):
+                    n = T - a
+                    if n < 0:
+                        continue
+                    kind = self.kind()
+                    vals = [(T - i) * 100 for i in range(T)]
+                    rng.shuffle(vals)
+                    src = self.add_res(kind, rng.choice([n, n + 1, max(n - 1, 0)]),
+                                       self.adds([(v, 0) for v in vals[a:]]), "fill", split=True, top=False)
+                    ops = self.adds([(v, 0) for v in vals[:a]])
+                    ops.append({"op": "mergesplit", "p": 0, "t": 0, "r": src})
+                    ops += self.adds(self.followups(K, T, rng.randint(1, K + 2), "mixed"))
+                    self.add_res(kind, K, ops, "fill")
+
     # -- errors
     def gen_errors(self):
         rng = self.rng
@@ -170,6 +241,15 @@ class Gen:
             for perm in sorted(set(itertools.permutations(ms))):
                 for k in ks:
                     self.errors.append({"k": k, "offers": [[p, i + 1] for i, p in enumerate(perm)]})
+        # fill to K-1 / K / K+1 in a non-heap order, then 1..K+2 further offers above / below / between / equal
+        for k in range(1, 7 if quick else 9):
+            for T in (k - 1, k, k + 1):
+                for rep in range(2):
+                    vals = [(T - i) * 100 for i in range(T)]
+                    if rep:
+                        rng.shuffle(vals)
+                    vals += [p for p, _ in self.followups(k, T, rng.randint(1, k + 2), "mixed")]
+                    self.errors.append({"k": k, "offers": [[p, i + 1] for i, p in enumerate(vals)]})
         self.errors.append({"k": 0, "offers": [[1, 1]]})          # capacity 0: the Go code panics
         self.errors.append({"k": 0, "offers": []})
         for _ in range(40 if quick else 400):
@@ -196,6 +276,13 @@ class Gen:
                      "asc": i * 3, "desc": 1000 - i * 3}[mode]
                 offers.append([d, 1 if rng.random() < mix[0] else 0, 1 if rng.random() < mix[1] else 0, i + 1])
             self.traces.append({"offers": offers, "gate": rng.random() < 0.5})
+        # one pool filled to limit-1 / limit / limit+1 in descending order, then further offers
+        for (sy, fo, limit) in ((1, 0, 20), (1, 1, 20), (0, 1, 10), (0, 0, 1)):
+            for T in (limit - 1, limit, limit + 1):
+                for gate in (False, True):
+                    vals = [(T - i) * 100 for i in range(T)]
+                    vals += [p for p, _ in self.followups(limit, T, rng.randint(1, 6), "mixed")]
+                    self.traces.append({"offers": [[d, sy, fo, i + 1] for i, d in enumerate(vals)], "gate": gate})
 
     # -- slow SQLs
     def gen_slows(self):
@@ -220,7 +307,38 @@ class Gen:
                             "max": str(mx), "t": i + 1})
             self.slows.append({"k": k, "obs": obs, "tiefree": tiefree})
 
+    def gen_slow_fills(self):
+        """fill to K-1 / K / K+1 distinct statements, merge a further observation into a retained one (moving
+        which statement is the fastest), then 1..K+2 more observations of new and of known statements"""
+        rng = self.rng
+        for K in range(1, 5 if self.tier == "quick" else 8):
+            for T in (K - 1, K, K + 1):
+                for bump in ("raise_min", "raise_other", "lower", "none"):
+                    vals = [(T - i) * 100 for i in range(T)]
+                    if bump != "raise_min":
+                        rng.shuffle(vals)
+                    seq = [(200 + i, v) for i, v in enumerate(vals)]           # (id, max)
+                    if T > 0 and bump != "none":
+                        i_min = min(range(T), key=lambda i: vals[i])
+                        tgt = i_min if bump == "raise_min" else rng.randrange(T)
+                        newmax = {"raise_min": (T + 2) * 100 + 7, "raise_other": vals[tgt] + 55,
+                                  "lower": max(vals[tgt] - 55, 1)}[bump]
+                        seq.append((200 + tgt, newmax))
+                    for j in range(rng.randint(1, K + 2)):
+                        p = self.followups(K, T, 1, "mixed")[0][0] + 3 * j + 1
+                        ident = rng.choice([300 + j, 300 + j, 200 + rng.randrange(max(T, 1)), 300])
+                        seq.append((ident, p))
+                    tiefree = len(set(m for _, m in seq)) == len(seq)
+                    obs = []
+                    for i, (ident, mx) in enumerate(seq):
+                        cnt = rng.randint(1, 4)
+                        obs.append({"id": ident, "count": cnt, "total": str(mx * cnt), "min": str(rng.randint(0, mx)),
+                                    "max": str(mx), "t": i + 1})
+                    self.slows.append({"k": K, "obs": obs, "tiefree": tiefree})
+
     def all(self):
+        self.fills()
+        self.gen_slow_fills()
         self.perms()
         self.randoms()
         self.merges()
@@ -259,6 +377,13 @@ def c_rcase(inp, outs, i):
             ops.append("OAdd (%s)" % c_ev(op["p"], op["t"]))
         elif op["op"] == "synth":
             ops.append("OAddSynth (%s)" % c_ev(op["p"], op["t"]))
+        elif op["op"] == "mergesplit":
+            src = outs[op["r"]]
+            byt = {it["t"]: it for it in src["retained"]}
+            for h in src["halves"]:
+                half = {"retained": [byt.get(t, {"p": -1, "t": t}) for t in h["tags"]], "seen": h["seen"],
+                        "failed": h["failed"]}
+                ops.append("OMergeFailed %s" % c_res_literal(h["cap"], half))
         else:
             lit = c_res_literal(inp["reservoirs"][op["r"]]["k"], outs[op["r"]])
             ops.append("%s %s" % ("OMerge" if op["op"] == "merge" else "OMergeFailed", lit))
@@ -349,7 +474,7 @@ def res_closure(inp, i):
         if j in seen:
             return
         for op in inp["reservoirs"][j]["ops"]:
-            if op["op"] in ("merge", "mergefailed"):
+            if op["op"] in ("merge", "mergefailed", "mergesplit"):
                 visit(op["r"])
         seen[j] = len(order)
         order.append(j)
@@ -359,7 +484,7 @@ def res_closure(inp, i):
     for j in order:
         rc = json.loads(json.dumps(inp["reservoirs"][j]))
         for op in rc["ops"]:
-            if op["op"] in ("merge", "mergefailed"):
+            if op["op"] in ("merge", "mergefailed", "mergesplit"):
                 op["r"] = seen[op["r"]]
         out.append(rc)
     return out
@@ -515,7 +640,11 @@ def run(chk, replay=None):
         "reservoirs: every distinct order of small priority multisets (5-6 items quick, up to 7 thorough; ties, "
         "duplicates, synthetics) into K in 0..3, random sequences of K-1/K/K+1/3K offers around capacities 1..100 "
         "(thorough ..833) in 7 priority patterns, merge / merge-failed groups of up to 4 reservoirs, merge-failed "
-        "chains of 9..12 attempts, Split; errors: all orders of small multisets into K<=3 and random runs at the real "
+        "chains of 9..12 attempts, Split; 'fill' group: for K<=6 (thorough 8) every division a+b = K-1, K, K+1 of "
+        "own events + merged / merge-failed / split-and-carried-over events in non-heap order, each FOLLOWED by 1..K+2 "
+        "further offers above / below / between / equal to the retained priorities and by merges after merges; the "
+        "same fill-then-continue pattern for ErrorHeap (K<=6), each trace pool (limit-1, limit, limit+1) and SlowSQLs "
+        "(fill, merge into a retained statement, continue); errors: all orders of small multisets into K<=3 and random runs at the real "
         "capacity 20; traces: random mixes of the three kinds around 1/10/20; slow SQLs: random observation runs "
         "around capacity 10 with repeated ids, ties and int32/uint64 wrap. Non-trivial = more offered than the "
         "capacity (reservoir/error/trace pool overflowed; slow SQL: more distinct ids than K or a repeated id); "
